@@ -232,6 +232,8 @@ pub struct Gen {
     pub pool_rich: bool,
     /// seconds the clock will advance before the operation being generated executes
     pub step_dt: u64,
+    /// recently emitted operations: redelivered verbatim as duplicate / delayed transactions
+    pub recent: Vec<Op>,
 }
 
 fn dec(s: &str) -> Decimal {
@@ -254,7 +256,7 @@ impl Gen {
             }
         }
         let pool_rich = prof.w.contains_key("route") && rng.chance(1, 7);
-        Gen { step_dt: 0, pool_rich, rng, prof, total_steps, emitted: 0, next_id: 0, disabled, draining: false, drain_phase: 0, drain_tried: Default::default(), burst_left: 0, burst_done: false }
+        Gen { recent: vec![], step_dt: 0, pool_rich, rng, prof, total_steps, emitted: 0, next_id: 0, disabled, draining: false, drain_phase: 0, drain_tried: Default::default(), burst_left: 0, burst_done: false }
     }
 
     fn uid(&mut self, p: &str) -> String {
@@ -1850,6 +1852,25 @@ impl Gen {
         } else {
             self.gen_any(c)
         };
+        // transport faults: the same signed message delivered twice in a row (duplicate), or a
+        // message from a few steps ago delivered again now (delayed / reordered delivery)
+        let (op, dt) = if !bursting && self.emitted > self.prof.setup_steps && !self.recent.is_empty() && self.prof.name != "epoch" && self.prof.name != "audit" && self.rng.chance(1, 20) {
+            if self.rng.chance(1, 2) {
+                c.stats.bump("fault.transport.duplicate_delivery");
+                (self.recent.last().unwrap().clone(), if self.rng.chance(2, 3) { 0 } else { dt })
+            } else {
+                c.stats.bump("fault.transport.delayed_delivery");
+                (self.rng.pick(&self.recent).clone(), dt)
+            }
+        } else {
+            (op, dt)
+        };
+        if matches!(op, Op::Pm { .. } | Op::Fm { .. }) {
+            self.recent.push(op.clone());
+            if self.recent.len() > 8 {
+                self.recent.remove(0);
+            }
+        }
         // sampled fault: dry-run on a fork, pick one internal call by content
         let mut fault = None;
         if self.prof.fault_pct > 0 && self.rng.chance(self.prof.fault_pct, 100) {
